@@ -22,6 +22,8 @@ var sgr = regexp.MustCompile("\x1b\\[[0-9;]*m")
 var filterPrefix = regexp.MustCompile(`^(\S+) (\d+): `)
 var filterSummary = regexp.MustCompile(`(?m)^Matched: ([0-9,]+) / ([0-9,]+)(?: \(Ignored: ([0-9,]+)\))?`)
 
+var aggFooter = regexp.MustCompile(`(?m)^Matched: ([0-9,]+) / ([0-9,]+)(?: \(Groups: [0-9,]+\))?(?: \(Ignored: ([0-9,]+)\))?`)
+
 func cliFilterWorld(rc *RunCtx, prop string) {
 	t := rc.Tape
 	sc := genPipeScenario(rc, true, 40)
@@ -37,12 +39,29 @@ func cliFilterWorld(rc *RunCtx, prop string) {
 	if strings.ContainsAny(sc.Extract, ",") {
 		sc.Extract = "{0}"
 	}
+	// C01, one run in three: an aggregating command instead of filter. Its footer `Matched: M / R (Ignored: I)` is drawn by the
+	// render callback - by the last render, which must come after every line was classified, also when the lines after the last
+	// match are all unmatched or ignored and a periodic render has already shown everything that was sampled
+	agg := prop == "C01" && t.WBool(1, 3)
+	if agg {
+		if sc.Extract == "{@}" {
+			sc.Extract = "{0}" // an array-valued key is NUL-separated: the histogram reads a second part as the increment
+		}
+		for i := range sc.Inputs {
+			// (a NUL inside a key separates key and increment: not this world's subject)
+			sc.Inputs[i].Data = bytes.ReplaceAll(sc.Inputs[i].Data, []byte{0}, []byte{'0'})
+		}
+	}
 	sc.writeInputs()
 	args := []string{"--nocolor"}
 	if colour {
 		args = []string{"--color"}
 	}
-	args = append(args, "filter")
+	if agg {
+		args = append(args, "--noformat", "histo", "-n", "100000")
+	} else {
+		args = append(args, "filter")
+	}
 	switch sc.MatcherKind {
 	case 1:
 		args = append(args, "-m", sc.Pattern)
@@ -92,6 +111,10 @@ func cliFilterWorld(rc *RunCtx, prop string) {
 	ctx := fmt.Sprintf("%v", desc)
 	// ---- summary (C01) ----
 	m := filterSummary.FindSubmatch(sgr.ReplaceAll(res.Stderr, nil))
+	if agg {
+		// the footer of the final screen: `Matched: M / R (Groups: G) (Ignored: I)`
+		m = aggFooter.FindSubmatch(res.Stdout)
+	}
 	if m == nil {
 		rc.Violate("cli-summary-missing", "no summary on stderr: %q\n%s", clip(string(res.Stderr), 300), ctx)
 		return
@@ -115,6 +138,10 @@ func cliFilterWorld(rc *RunCtx, prop string) {
 	}
 	if res.Exit != wantExit {
 		rc.Violate("cli-exit", "exit status %d, expected %d\nstderr: %q\n%s", res.Exit, wantExit, clip(string(res.Stderr), 300), ctx)
+	}
+	if agg {
+		rc.Probes["cli-aggregator-footer-runs"]++
+		return
 	}
 	// ---- stdout ----
 	out := bytes.Split(res.Stdout, []byte("\n"))
